@@ -13,6 +13,10 @@ Acts(s) ==
     \cup UNION {{[name |-> "Execute", op |-> o, target |-> t, fn |-> f, arg |-> g, auth |-> au] :
             t \in {"p1", "p2"}, f \in {"echo", "boom"}, g \in {"u32", "str", "vec", "unit"},
             au \in {{o}, {s.owner}, {}}} : o \in Ops}
+    \* the operator's authorisation entry carries only the forwarded argument list (not the target or the
+    \* function): that is not an authorisation of THIS call
+    \cup {[name |-> "Execute", op |-> o, target |-> t, fn |-> "echo", arg |-> g, auth |-> {}, scoped |-> {o}] :
+            o \in Ops, t \in {"p1", "p2"}, g \in {"u32", "unit"}}
     \cup {[name |-> "TransferOwnership", new |-> n, auth |-> {s.owner}] : n \in {"owner0", "carol"}}
 
 Init == st = [ops |-> [x \in Accts |-> "never"], owner |-> "owner0"]
